@@ -53,7 +53,9 @@ def parse_grid(grid_str):
         parsed = json.loads(grid_str)
     else:
         parsed = copy.deepcopy(grid_str)
-    meta = parsed.pop('meta')
+    # (work on copies of the tag dicts: in pre-decoded input one dict object may
+    # be shared, e.g. by a grid and a grid nested in it)
+    meta = dict(parsed.pop('meta'))
     # Decode version
     version = Version(meta.pop('ver'))
     grid_version = version
@@ -70,6 +72,7 @@ def parse_grid(grid_str):
 
     # Grab the columns in the order given
     for col in parsed.pop('cols'):
+        col = dict(col)
         name = col.pop('name')
         meta = {}
         for key, value in col.items():
